@@ -178,6 +178,21 @@ def cls_langs():
         assoc('Conn', 'Top', 'tops', '*', '1', 'lone', 'Lone'),
         assoc('Solo', 'Lone', 'l1', '*', '*', 'l2', 'Lone'),
     ], lang_id='org.verif.cls3')
+    # same association name AND same field name, different type / maximum (either declaration order)
+    for tag, order in (('lax_first', (0, 1)), ('strict_first', (1, 0))):
+        decl = [assoc('Storage', 'Shelf', 'shelf', '1', '*', 'items', 'Thing'),
+                assoc('Storage', 'Safe', 'safe', '1', '0..1', 'items', 'Gem')]
+        assets = [asset('Thing', steps=[step('go', 'or')]), asset('Gem', sup='Thing'), asset('Shelf', steps=[step('go', 'or')]),
+                  asset('Safe', steps=[step('go', 'or')])]
+        if tag == 'strict_first':
+            assets = [assets[3], assets[2], assets[1], assets[0]]
+            assets = [assets[3], assets[2], assets[0], assets[1]]
+        out['shared_field:' + tag] = spec(assets, [decl[i] for i in order], lang_id='org.verif.cls4')
+    # the same name between the same two types in opposite directions
+    out['opposite'] = spec([asset('Hh', steps=[step('go', 'or')]), asset('Ss', steps=[step('go', 'or')]), asset('H2', sup='Hh')], [
+        assoc('Uses', 'Hh', 'users', '*', '*', 'used', 'Ss'),
+        assoc('Uses', 'Ss', 'clients', '*', '0..1', 'server', 'Hh'),
+    ], lang_id='org.verif.cls5')
     return out
 
 
